@@ -145,4 +145,15 @@ theorem C03_source_skeletons :
     Gen.Skel.DB_UnlockDatabase = Expected.Skel.DB_UnlockDatabase :=
   ⟨rfl, rfl, rfl, rfl, rfl⟩
 
+/-- further regenerated control skeletons (fifth round of seeded changes: code no earlier change had
+    touched): SHMHandle_Flush, RootNode_createWAL, RootNode_createSHM, WALNode_Setattr, WALNode_Open, SHMNode_Open -/
+theorem C03_source_skeletons_5 :
+    Gen.Skel.SHMHandle_Flush = Expected.Skel.SHMHandle_Flush ∧
+    Gen.Skel.RootNode_createWAL = Expected.Skel.RootNode_createWAL ∧
+    Gen.Skel.RootNode_createSHM = Expected.Skel.RootNode_createSHM ∧
+    Gen.Skel.WALNode_Setattr = Expected.Skel.WALNode_Setattr ∧
+    Gen.Skel.WALNode_Open = Expected.Skel.WALNode_Open ∧
+    Gen.Skel.SHMNode_Open = Expected.Skel.SHMNode_Open :=
+  ⟨rfl, rfl, rfl, rfl, rfl, rfl⟩
+
 end LiteFSVerif.C03
